@@ -282,23 +282,30 @@ func (s *Set) Intersects(b *Set) bool {
 
 // Equal returns true if two sets are equal.
 func (s *Set) Equal(a *Set) bool {
-	lens, lena := s.Len(), a.Len()
-	if lens != lena {
-		return false
-	} else if lens == 0 && lena == 0 {
-		return true
+	// run returns the maximal run of overlapping or adjacent intervals that
+	// starts at n, and the node that follows it.
+	run := func(n *Node) (begin, end rune, next *Node, ok bool) {
+		if n == nil || n.Forward == nil {
+			return 0, 0, nil, false
+		}
+		begin, end = n.Begin, n.End
+		for n = n.Forward; n.Forward != nil && int64(n.Begin) <= int64(end)+1; n = n.Forward {
+			end = max(end, n.End)
+		}
+		return begin, end, n, true
 	}
 	x, y := s.Head.Forward, a.Head.Forward
 	for {
-		if x.Begin != y.Begin || x.End != y.End {
+		xBegin, xEnd, xNext, xOk := run(x)
+		yBegin, yEnd, yNext, yOk := run(y)
+		if !xOk || !yOk {
+			return xOk == yOk
+		}
+		if xBegin != yBegin || xEnd != yEnd {
 			return false
 		}
-		x, y = x.Forward, y.Forward
-		if x == nil && y == nil {
-			break
-		}
+		x, y = xNext, yNext
 	}
-	return true
 }
 
 // Len returns the size of the set.
